@@ -186,7 +186,9 @@ def run_harness(pool, lines):
 
 
 def run_driver(pool, lines):
-    return run_parallel([os.path.join(ML, 'driver'), os.path.join(pool.dir, 'pool.txt')], lines, what='driver')
+    # the extracted model recurses over its input list: run it with a large stack (hundreds of kilobytes of input)
+    return run_parallel(['/bin/sh', '-c', 'ulimit -s 4000000 2>/dev/null || ulimit -s unlimited 2>/dev/null; exec "$0" "$@"',
+                         os.path.join(ML, 'driver'), os.path.join(pool.dir, 'pool.txt')], lines, what='driver')
 
 
 # ------------------------------------------------------------------ proofs ---
